@@ -135,10 +135,15 @@ def finish(report, tier, t0, facts_info, extra_cov=None):
               coverage=cov, assumptions=report.assumptions, wall_s=round(time.time() - t0, 2), violations=len(viol))
     with open(os.path.join(VERIF, "evidence", "%s.json" % report.prop), "w") as fh:
         json.dump(ev, fh, indent=1, default=str)
-    print("property %s tier=%s: %d obligations, %d discharged, %d known finding(s), %d violation(s)  [%.1fs]"
-          % (report.prop, tier, n_ob, n_ok, len(kn), len(viol), time.time() - t0))
-    for k, v in sorted(by_rule.items()):
-        print("  %-8s %4d/%-4d" % (k, v[1], v[0]))
-    for l in lines:
-        print(l)
+    try:
+        print("property %s tier=%s: %d obligations, %d discharged, %d known finding(s), %d violation(s)  [%.1fs]"
+              % (report.prop, tier, n_ob, n_ok, len(kn), len(viol), time.time() - t0))
+        for k, v in sorted(by_rule.items()):
+            print("  %-8s %4d/%-4d" % (k, v[1], v[0]))
+        for l in lines:
+            print(l)
+        import sys
+        sys.stdout.flush()
+    except BrokenPipeError:
+        pass
     return 1 if viol else 0
